@@ -516,3 +516,105 @@ pub fn raft_prog<'a>(
         redirected: redirected.sim_cluster_output(),
     }
 }
+
+pub struct PaxosPorts {
+    pub payloads: SimClusterSender<u32, TotalOrder, ExactlyOnce>,
+    pub decided: SimClusterReceiver<(usize, Option<u32>), NoOrder, ExactlyOnce>,
+}
+
+/// `hydro_test::cluster::paxos::paxos_core` with externally supplied payloads at the proposers.
+/// (The protocol drives its elections from wall-clock timers; whether the simulator can run
+/// it at all is probed by the harness, see C40.)
+pub fn paxos_prog<'a>(
+    proposers: &Cluster<'a, hydro_test::cluster::paxos::Proposer>,
+    acceptors: &Cluster<'a, hydro_test::cluster::paxos::Acceptor>,
+) -> PaxosPorts {
+    use hydro_test::cluster::paxos::{PaxosConfig, paxos_core};
+    let (payloads, payload_stream) = proposers.sim_input::<u32, TotalOrder, ExactlyOnce>();
+    let no_checkpoint = acceptors.source_iter(q!(Vec::<usize>::new())).max();
+    let (_ballots, decided) = paxos_core(
+        proposers,
+        acceptors,
+        no_checkpoint.into(),
+        move |_new_leader| payload_stream,
+        PaxosConfig {
+            f: 1,
+            i_am_leader_send_timeout: 1,
+            i_am_leader_check_timeout: 2,
+            i_am_leader_check_timeout_delay_multiplier: 1,
+        },
+        nondet!(/** verif: leader election is non-deterministic */),
+        nondet!(/** verif: commit is non-deterministic during elections */),
+    );
+    PaxosPorts {
+        payloads,
+        decided: decided.sim_cluster_output(),
+    }
+}
+
+/// `paxos::index_payloads` (the proposer's slot assignment) fed by an external ordered input,
+/// exactly like the repository's own simulator test of it.
+pub fn paxos_index_prog<'a>(node: &Process<'a>) -> (OrdSend<i32>, OrdRecv<(usize, i32)>) {
+    let tick = node.tick();
+    let (send, input) = node.sim_input::<i32, TotalOrder, ExactlyOnce>();
+    let indexed = hydro_test::cluster::paxos::index_payloads(
+        tick.none(),
+        input.batch(&tick, nondet!(/** verif: batching must not change the slots */)),
+    );
+    (send, indexed.all_ticks().sim_output())
+}
+
+pub type PBallot = hydro_test::cluster::paxos::Ballot;
+pub type PP2a = hydro_test::cluster::paxos::P2a<u32, hydro_test::cluster::paxos::Proposer>;
+/// (slot, ballot number, proposer raw id, value)
+pub type PLogRow = (usize, u32, u32, Option<u32>);
+
+pub struct AcceptorPorts {
+    pub ballots: SimClusterSender<PBallot, TotalOrder, ExactlyOnce>,
+    pub p2as: SimClusterSender<PP2a, NoOrder, ExactlyOnce>,
+    pub replies: SimClusterReceiver<((usize, PBallot), Result<(), Option<PBallot>>), NoOrder, ExactlyOnce>,
+    pub log: SimClusterReceiver<Vec<PLogRow>, TotalOrder, ExactlyOnce>,
+}
+
+/// `paxos::acceptor_p2` on its own: the acceptor's promised ballot is the maximum of an external
+/// ballot input, P2a messages arrive from an external input, P2b replies go to the proposers
+/// over fail-stop TCP; every tick's log snapshot is exposed.
+pub fn paxos_acceptor_prog<'a>(
+    proposers: &Cluster<'a, hydro_test::cluster::paxos::Proposer>,
+    acceptors: &Cluster<'a, hydro_test::cluster::paxos::Acceptor>,
+) -> AcceptorPorts {
+    use hydro_test::cluster::paxos::acceptor_p2;
+    let tick = acceptors.tick();
+    let (ballots, ballot_in) = acceptors.sim_input::<PBallot, TotalOrder, ExactlyOnce>();
+    let max_ballot = ballot_in.fold(
+        q!(|| None),
+        q!(|acc: &mut Option<PBallot>, b| {
+            if Some(&b) > acc.as_ref() {
+                *acc = Some(b);
+            }
+        }),
+    );
+    let a_max_ballot = max_ballot.snapshot(&tick, nondet!(/** verif: promised ballot as of the tick */));
+    let (p2as, p2a_in) = acceptors.sim_input::<PP2a, NoOrder, ExactlyOnce>();
+    let no_checkpoint = acceptors.source_iter(q!(Vec::<usize>::new())).max();
+    let (a_log, replies) = acceptor_p2(&tick, a_max_ballot, p2a_in, no_checkpoint.into(), proposers);
+    let log = a_log
+        .snapshot_atomic(&tick, nondet!(/** verif: log as of the tick */))
+        .map(q!(|(_ck, log)| {
+            let mut rows: Vec<(usize, u32, u32, Option<u32>)> = log
+                .into_iter()
+                .map(|(slot, v)| (slot, v.ballot.num, v.ballot.proposer_id.get_raw_id(), v.value))
+                .collect();
+            rows.sort();
+            rows
+        }))
+        .into_stream()
+        .all_ticks()
+        .sim_cluster_output();
+    AcceptorPorts {
+        ballots,
+        p2as,
+        replies: replies.sim_cluster_output(),
+        log,
+    }
+}
